@@ -327,6 +327,40 @@ Definition c07_ghost (acc : list (N * learner) * string) (o : obs) : list (N * l
   | _ => acc
   end.
 
+(* ---- C05: a retry after a failure runs on the largest size class --------------------------------------- *)
+(* a worker's completion report is accepted and the task's learner (the one the ghost observation names) asks for a
+   retry: every operation of that task that is still in flight now belongs to the largest size class of its platform queue *)
+Definition c05_retry (ls : list (N * learner)) (pre post : dump) (e : event) (o : list obs) : string :=
+  match e with
+  | EStartSync _ a _ =>
+    match y_state a, find_dworker pre (w_sk (y_worker a)) (wid (y_worker a)) with
+    | WCompleted _ _, Some k =>
+      match dw_task k with
+      | Some ops =>
+        let asked := existsb (fun x => match x with
+                                       | OGhost (GFailed l _) =>
+                                         match find (learner_eqb_id l) ls with
+                                         | Some (_, y) => match l_fail y with Some _ => true | None => false end
+                                         | None => false
+                                         end
+                                       | _ => false
+                                       end) o in
+        if asked then
+          first_nonempty (map (fun x =>
+            if existsb (Nat.eqb (do_name x)) ops && match do_resp x with None => true | Some _ => false end then
+              match find (fun p => pkey_eqb (dp_key p) (sk_pk (do_sk x))) (d_pqs post) with
+              | Some p => if (sk_sc (do_sk x) =? last (dp_scs p) 0)%N then "" else "C05:retry-not-on-largest-size-class"
+              | None => ""
+              end
+            else "") (d_ops post))
+        else ""
+      | None => ""
+      end
+    | _, _ => ""
+    end
+  | _ => ""
+  end.
+
 Definition c07_background (d : dump) : string :=
   first_nonempty (
     map (fun o => if do_mayexist o && negb (match do_action o with Some (true, _) => true | _ => false end)
@@ -451,7 +485,9 @@ Definition mon_event (e : event) (m : mon) : mon :=
   | _ => m
   end.
 
-Definition p_step (cfg : config) (t0 : Z) (m : mon) (pre : dump) (e : event) (o : list obs) (post : dump) : mon * string :=
+(* [sel] decides what is reported of the components: the first complaint ([p_step], the predicate of the theorems) or all
+   of them ([p_step_all], used by Corr.v so that a complaint of one property does not hide another property's) *)
+Definition p_gen {A : Type} (sel : list string -> A) (cfg : config) (t0 : Z) (m : mon) (pre : dump) (e : event) (o : list obs) (post : dump) : mon * A :=
   let m0 := m in
   let m := mon_event e m in
   (* learners: a Select hands out the scripted learner *)
@@ -461,6 +497,7 @@ Definition p_step (cfg : config) (t0 : Z) (m : mon) (pre : dump) (e : event) (o 
              then let '(_, _, _, l) := x_sel a in m <| m_learners ::= cons (l_id l, l) |> else m
            | _ => m
            end in
+  let e_retry_sc := c05_retry (m_learners m) pre post e o in
   let '(ls, e_learn) := fold_left c07_ghost o (m_learners m, ""%string) in
   let m := m <| m_learners := ls |> in
   (* C02: a stream its client did not cancel is a waiting client: the operation it is attached to is not collected under
@@ -637,5 +674,11 @@ Definition p_step (cfg : config) (t0 : Z) (m : mon) (pre : dump) (e : event) (o 
                 | EStartExecute c a _ => first_nonempty [c07_exec o; c03_exec pre post a; c05_exec cfg t0 pre post c a o]
                 | _ => ""
                 end in
-  (m, first_nonempty [e_panic; c01_dump post; e_sync; e_stream; e_lost; e_cancel; c03_dump post; c03_waited post; c04_dump post; e_exec; c05_assign pre post;
-                      c06_dump m post; c06_final m post; e_arm; e_retry; e_early; e_learn; c07_background post; c07_learners_match m post; e_gone; e_term]).
+  (m, sel [e_panic; c01_dump post; e_sync; e_stream; e_lost; e_cancel; c03_dump post; c03_waited post; c04_dump post; e_exec; c05_assign pre post;
+                      c06_dump m post; c06_final m post; e_arm; e_retry; e_early; e_learn; c07_background post; c07_learners_match m post; e_gone; e_term; e_retry_sc]).
+
+Definition p_step (cfg : config) (t0 : Z) (m : mon) (pre : dump) (e : event) (o : list obs) (post : dump) : mon * string :=
+  p_gen first_nonempty cfg t0 m pre e o post.
+Definition p_step_all (cfg : config) (t0 : Z) (m : mon) (pre : dump) (e : event) (o : list obs) (post : dump) : mon * list string :=
+  p_gen (fun l => l) cfg t0 m pre e o post.
+
